@@ -357,3 +357,21 @@ def path_facts(fn, path, depth=14):
             if t.get("callee"):
                 atoms.add(("called", t["callee"]))
     return sem.facts(atoms) | {a for a in atoms if a[0] in ("called",)}
+
+
+def contradictory(facts):
+    """a path whose branch outcomes disagree about the same expression (e.g. a flag re-read and taken both ways) is infeasible"""
+    seen = {}
+    for x in facts:
+        if x[0] == "flag":
+            k = ("flag", repr(x[1]))
+            v = x[2]
+        elif x[0] == "call":
+            k = ("call", x[1], repr(x[3]))
+            v = x[2]
+        else:
+            continue
+        if k in seen and seen[k] != v:
+            return True
+        seen[k] = v
+    return False
